@@ -104,7 +104,8 @@ TypeOf(P, G, e) ==
      [] e.k = "bin" -> LET l == TypeOf(P, G, e.a[1])  r == TypeOf(P, G, e.a[2]) IN
                       IF IsErr(l) THEN l ELSE IF IsErr(r) THEN r
                       ELSE IF e.s \in ArithOpsT THEN
-                           (IF l = TInt /\ r = TInt THEN TInt ELSE IF e.s = "+" /\ l = TStr /\ r = TStr THEN TStr ELSE Err("operand"))
+                           (IF l = TInt /\ r = TInt THEN TInt ELSE IF l = TFloat /\ r = TFloat THEN TFloat
+                            ELSE IF e.s = "+" /\ l = TStr /\ r = TStr THEN TStr ELSE Err("operand"))
                       ELSE IF e.s \in CmpOpsT THEN (IF (l = TInt /\ r = TInt) \/ (l = TFloat /\ r = TFloat) THEN TBool ELSE Err("operand"))
                       ELSE IF e.s \in {"==", "!="} THEN (IF l = r /\ l.k \in {"int", "bool", "str", "enum", "float"} THEN TBool ELSE Err("operand"))
                       ELSE IF e.s \in {"and", "or"} THEN (IF l = TBool /\ r = TBool THEN TBool ELSE Err("operand"))
